@@ -406,9 +406,9 @@ def run(ctx, rep):
     r11_7(ctx, rep)
 
     # ---------------- R11.6 -------------------------------------------------------------
-    rep.rule("R11.6", "= R03.4 / R04.2 / R04.8: every batch element is written completely (write_all) to the file whose name is its offset")
+    rep.rule("R11.6", "= R03.4 / R04.2 / R04.3 / R04.8: every batch element is written completely (write_all) to the file whose name is its offset; the worker's file list keeps its order (the newest file is the write target)")
     c03.run(ctx, c03._Filter(rep, keep=("R03.4",), rename="R11.6/"))
-    c04.run(ctx, c03._Filter(rep, keep=("R04.2", "R04.8"), rename="R11.6/"))
+    c04.run(ctx, c03._Filter(rep, keep=("R04.2", "R04.3", "R04.8"), rename="R11.6/"))
 
 
 def _rotated_on_path(P, seen, k, crs):
